@@ -83,6 +83,18 @@ func TestVerifC15Chains(t *testing.T) {
 				chains = append(chains, c15Chain(t, fmt.Sprintf("chain%d", i)))
 			}
 		}
+		if rapid.IntRange(0, 24).Draw(t, "manyStacks") == 0 {
+			// one counter incremented from more than a thousand different call stacks (a long-running server with
+			// many code paths): three-step chains enumerated from a drawn starting point, all different
+			depth = rapid.SampledFrom([]int{3, 8, 16}).Draw(t, "manyDepth")
+			sc = &StackCounter{name: prefix, depth: depth, file: &file{}}
+			chains = nil
+			n, from := rapid.IntRange(1030, 1500).Draw(t, "nstacks"), rapid.IntRange(0, 20000).Draw(t, "firstStack")
+			for i := from; i < from+n; i++ {
+				chains = append(chains, []int{i % disp.NumSteps, i / disp.NumSteps % disp.NumSteps, i / disp.NumSteps / disp.NumSteps % disp.NumSteps})
+			}
+			vstats.Label("manyStacks")
+		}
 		type obs struct {
 			identity string // harness view of the top-depth frames
 			name     string // counter that was hit
@@ -203,6 +215,10 @@ func TestVerifC15Chains(t *testing.T) {
 		}
 		var cs []string
 		for _, c := range chains {
+			if len(cs) == 6 {
+				cs = append(cs, fmt.Sprintf("... (%d chains)", len(chains)))
+				break
+			}
 			cs = append(cs, c15ChainString(c))
 		}
 		vstats.Case(fmt.Sprintf("depth=%d prefix=%s chains=%v", depth, prefix, cs), ditto && change, fmt.Sprintf("ditto:%v", ditto),
